@@ -3,6 +3,7 @@ package vuego
 import (
 	"fmt"
 	"reflect"
+	"sort"
 	"strconv"
 	"strings"
 	"sync"
@@ -335,7 +336,12 @@ func (s *Stack) ForEach(expr string, fn func(index int, value any) error) error 
 		}
 		return nil
 	case reflect.Map:
+		// Go's map order is unspecified: iterate in the order of the keys' string form,
+		// so that the same data renders the same way every time
 		keys := rv.MapKeys()
+		sort.Slice(keys, func(a, b int) bool {
+			return fmt.Sprint(keys[a].Interface()) < fmt.Sprint(keys[b].Interface())
+		})
 		for i, key := range keys {
 			if err := fn(i, rv.MapIndex(key).Interface()); err != nil {
 				return err
